@@ -330,8 +330,25 @@ def run_sharded(cmd, lines, cwd=None, shards=None, timeout=3000):
     return out
 
 
+_GO_SAMPLE = []          # a sample of the case lines given to the implementation (for the coverage evidence)
+
+
 def run_go(lines, **kw):
+    if len(_GO_SAMPLE) < 40000:
+        step = max(1, len(lines) // 8000)
+        _GO_SAMPLE.extend(lines[::step])
     return run_sharded([os.path.join(HGO, "harness"), "run"], lines, **kw)
+
+
+def anchor_files(pid):
+    try:
+        for l in open(os.path.join(VERIF, "properties.jsonl")):
+            p = json.loads(l)
+            if p["id"] == pid:
+                return tuple(os.path.basename(f) for f in p["anchors"].get("files", []))
+    except Exception:
+        pass
+    return ()
 
 
 def run_ml(lines, **kw):
@@ -392,6 +409,11 @@ class Result:
                    (self.pid, self.pid, " && coqchk -silent -o GY.Properties.%s" % self.pid if self.tier == "thorough" else ""),
                    trusted_base=TRUSTED_BASE, theorems=proof["theorems"], axioms=proof["axioms"])
         cov.update(coverage)
+        if (self.tier == "thorough" or os.environ.get("VERIF_COVER")) and _GO_SAMPLE and "go_statement_coverage" not in cov:
+            try:
+                cov["go_statement_coverage"] = go_coverage(_GO_SAMPLE, files=anchor_files(self.pid))
+            except Exception as e:          # evidence only
+                cov["go_statement_coverage"] = dict(error=str(e)[:200])
         ev = dict(property_id=self.pid, tier=self.tier, seed=self.seed, level="proof", coverage=cov,
                   assumptions=assumptions, wall_s=round(time.time() - self.t0, 2),
                   violations=len(self.violations),
@@ -468,3 +490,33 @@ def diff_cases(res, cases, known_sig=None, canon=None, max_report=3, corr_name="
 
 def hexs(b):
     return b.hex() if b else "-"
+
+
+def go_coverage(lines, files=(), max_lines=20000, cwd=None):
+    """Statement coverage of /repo's packages achieved by running the Go harness on [lines] (a sample of the cases a
+    check ran): builds an instrumented harness (-cover), runs it once, returns {"total": pct, "functions": {name: pct}}
+    restricted to functions in [files] (base names such as "lex.go").  Evidence only; never decides anything."""
+    import shutil
+    import tempfile
+    exe = os.path.join(WORK, "harness_cover")
+    rc, out = sh(["go", "build", "-tags", "verif", "-cover", "-coverpkg=github.com/openconfig/goyang/...,verifharness",
+                  "-o", exe, "."], cwd=HGO, env=GOENV, timeout=900)
+    if rc != 0:
+        return dict(error=out[-300:])
+    d = tempfile.mkdtemp(prefix="gocov")
+    try:
+        lines = lines[:max_lines]
+        subprocess.run([exe, "run"], input="\n".join(lines) + "\n", text=True, cwd=cwd, timeout=1800,
+                       stdout=subprocess.DEVNULL, stderr=subprocess.DEVNULL, env=dict(os.environ, GOCOVERDIR=d))
+        rc, out = sh(["go", "tool", "covdata", "func", "-i=" + d], env=GOENV, timeout=300)
+        funcs, tot = {}, None
+        for l in out.splitlines():
+            m = re.match(r"^\S*/(pkg/\w+/)?(\w+\.go):\d+:\s+(\S+)\s+([\d.]+)%", l)
+            if m and (not files or m.group(2) in files) and "verif_hooks" not in m.group(2):
+                funcs[m.group(2) + ":" + m.group(3)] = float(m.group(4))
+        vals = list(funcs.values())
+        return dict(functions=funcs, mean_function_pct=round(sum(vals) / len(vals), 1) if vals else None,
+                    functions_fully_covered=sum(1 for v in vals if v == 100.0), functions_seen=len(vals),
+                    sample_lines=len(lines))
+    finally:
+        shutil.rmtree(d, ignore_errors=True)
